@@ -42,3 +42,15 @@ def same(a, b):
 def seq_eq(a, b):
     a, b = list(a), list(b)
     return len(a) == len(b) and all(x is y for x, y in zip(a, b))
+
+
+class SkipClause(Exception):
+    """the clause mentions the pre-state (old(...)): it is evaluated by the verifier only"""
+
+
+def old(x):
+    raise SkipClause()
+
+
+def appended(new, old_, x):
+    raise SkipClause()
